@@ -106,7 +106,13 @@ template <typename T>
 inline
 Octagonal_Shape<T>::Octagonal_Shape(const dimension_type num_dimensions,
                                     const Degenerate_Element kind)
-  : matrix(num_dimensions), space_dim(num_dimensions), status() {
+  : matrix(check_space_dimension_overflow(num_dimensions,
+                                          max_space_dimension(),
+                                          "PPL::Octagonal_Shape::",
+                                          "Octagonal_Shape(n, k)",
+                                          "n exceeds the maximum "
+                                          "allowed space dimension")),
+    space_dim(num_dimensions), status() {
   if (kind == EMPTY) {
     set_empty();
   }
